@@ -7,6 +7,7 @@
 #include <stdint.h>
 #include "a/a.h"
 #include "a/math.h"
+#include "watchdog.h"
 
 static uint64_t rng_s;
 static uint64_t rnd(void)
@@ -39,6 +40,7 @@ static void ev_sqrt32(uint32_t x)
     fprintf(f, "{\"f\":\"sqrt\",\"w\":32,\"x\":");
     put_le(f, x, 4);
     fputs(",\"r\":", f);
+    wd_arm(20, "a_u32_sqrt");
     put_le(f, a_u32_sqrt(x), 4);
     fputs("}\n", f);
 }
@@ -48,6 +50,7 @@ static void ev_sqrt64(uint64_t x)
     fprintf(f, "{\"f\":\"sqrt\",\"w\":64,\"x\":");
     put_le(f, x, 8);
     fputs(",\"r\":", f);
+    wd_arm(20, "a_u64_sqrt");
     put_le(f, a_u64_sqrt(x), 8);
     fputs("}\n", f);
 }
@@ -55,6 +58,7 @@ static void ev_gcd(uint64_t a, uint64_t b, int w)
 {
     FILE *f = out();
     int n = w / 8;
+    wd_arm(20, "gcd / lcm");
     uint64_t g = w == 32 ? a_u32_gcd((a_u32)a, (a_u32)b) : a_u64_gcd(a, b);
     uint64_t l = w == 32 ? a_u32_lcm((a_u32)a, (a_u32)b) : a_u64_lcm(a, b);
     fprintf(f, "{\"f\":\"gcd\",\"w\":%d,\"a\":", w);
@@ -257,6 +261,7 @@ int main(int argc, char **argv)
     uint64_t lim = sweep >= 32 ? 0x100000000ull : (1ull << sweep);
     for (uint64_t x = 0; x < lim; ++x)
     {
+        if ((x & 0xFFFF) == 0) { wd_arm(60, "a_u32_sqrt sweep"); }
         uint64_t r = a_u32_sqrt((a_u32)x);
         if (!(r * r <= x && (r + 1) * (r + 1) > x))
         {
@@ -268,6 +273,7 @@ int main(int argc, char **argv)
     uint64_t first_bad64 = 0;
     for (long i = 0; i < nrand * 50; ++i)
     {
+        wd_arm(20, "a_u64_sqrt sample");
         uint64_t x = rnd() >> (rnd() % 64), r = a_u64_sqrt(x);
         __uint128_t rr = (__uint128_t)r * r, r1 = (__uint128_t)(r + 1) * (r + 1);
         if (!(rr <= x && r1 > x))
